@@ -100,7 +100,7 @@ class Gen:
             if k < 0.7:
                 op = r.choice(["*", "/", "%", "+", "-", "+", "-", "<<", ">>", "&", "^", "|"])
                 self.note("flat:" + op)
-                rhs = ("atom", str(r.randint(0, 3))) if op in ("<<", ">>") else (("atom", str(r.choice([1, 2, 3, 7]))) if op in ("/", "%") and r.random() > self.error_rate else self.tree(env, INT, d + 1))
+                rhs = ("atom", str(r.randint(0, 3))) if op in ("<<", ">>") else (("atom", str(r.choice([1, 2, 3, 7, 7, 2, 0]))) if op in ("/", "%") and r.random() > self.error_rate else self.tree(env, INT, d + 1))
                 return ("bin", op, self.tree(env, INT, d + 1), rhs)
             if k < 0.85:
                 return ("un", r.choice(["-", "+", "~"]), self.tree(env, INT, d + 1))
@@ -343,7 +343,7 @@ class Gen:
             return "if (%s) { print(%s) } else { print(%s) }" % (self.const_expr(BOOL, 0), self.expr(env, INT, depth + 1), self.expr(env, INT, depth + 1))
         if r.random() < self.error_rate * 4:
             self.note("injected-error")
-            return r.choice(["undefined_%d" % r.randint(0, 9), "print(1 / 0)", "throw(%s)" % self.lit(INT), "nofun(1)", "if (1) { }", "var q%d = 1; var q%d = 2" % ((self.counter,) * 2)])
+            return r.choice(["undefined_%d" % r.randint(0, 9), "print(1 / 0)", "var dz%d = 7; print(dz%d / 0)" % ((self.counter,) * 2), "var dm%d = 7; print(dm%d %% 0)" % ((self.counter,) * 2), "var dv%d = 0; print(5 / dv%d)" % ((self.counter,) * 2), "throw(%s)" % self.lit(INT), "nofun(1)", "if (1) { }", "var q%d = 1; var q%d = 2" % ((self.counter,) * 2)])
         return "print(%s)" % self.expr(env, INT, depth + 1)
 
     def cond(self, env, depth):
